@@ -94,12 +94,12 @@ def job_text(job):
 
     text = gen_inputs.read_text(job["path"]) if "path" in job else job["text"]
     if job.get("variant", "orig") != "orig":
-        text = gen_inputs.variant(text, random.Random("var/%s/%s/%s" % (job["path"], job["variant"], job.get("vseed"))), job["variant"])
+        text = gen_inputs.variant(text, random.Random("var/%s/%s/%s" % (common.rel(job["path"]), job["variant"], job.get("vseed"))), job["variant"])
     return text
 
 
 def describe(job, style, dicts, text=None):
-    d = {k: job[k] for k in ("path", "variant", "vseed", "config", "cseed", "fix_only_all", "fix_phase", "skip_phase") if k in job}
+    d = {k: job[k] for k in ("path", "variant", "vseed", "config", "cseed", "fix_only_all", "fix_only_lines", "fix_phase", "skip_phase") if k in job}
     d["style"] = style
     d["config_dicts"] = dicts
     if text is not None:
@@ -263,7 +263,49 @@ def run_job_inner(job):
         # --fix_only naming every rule with "all": must behave like a plain --fix (C20), in particular
         # unfixable / fixable:false / warning rules stay inert (C03)
         job = dict(job, fix_only={"fix": {"rule": {r.unique_id: ["all"] for r in rl.rules}}})
+    if job.get("fix_only_lines") and job.get("fix_only") is None:
+        # --fix_only with (rule, reported line) selections taken from a check of the same input (C20)
+        import random
+
+        frng = random.Random("fo/%s/%s/%s" % (common.rel(job.get("path", "")), job.get("vseed"), common.seed()))
+        try:
+            o0 = vsgrun.parse(lines, cla, oc)
+            rep = vsgrun.check_report(o0, vsgrun.new_rule_list(o0, oc), all_phases=True)
+        except Exception:  # noqa: BLE001
+            rep = []
+        by_rule = collections.defaultdict(set)
+        for rid, line, sol in rep:
+            if isinstance(line, int):
+                by_rule[rid].add(line)
+        sel = {}
+        for rid in sorted(by_rule):
+            x = frng.random()
+            ls = sorted(by_rule[rid])
+            if x < 0.5:
+                sel[rid] = sorted(frng.sample(ls, frng.randrange(1, len(ls) + 1)))
+            elif x < 0.6:
+                sel[rid] = ["all"]
+            elif x < 0.7:
+                sel[rid] = sorted({max(1, l + frng.choice([-1, 1])) for l in ls})
+        job = dict(job, fix_only={"fix": {"rule": sel}})
     steps, exc, ser = vsgrun.instrumented_fix(o, rl, ci, fix_phase=job.get("fix_phase", 7), skip_phase=job.get("skip_phase"), fix_only=job.get("fix_only"), on_step=on_step, harvest="trace" in feats)
+    if job.get("fix_only") is not None:
+        # C20 on the real rules: what a rule fixes is exactly what its analysis found on a listed (rule, line)
+        try:
+            listed = job["fix_only"].get("fix", {}).get("rule", {})
+        except Exception:  # noqa: BLE001
+            listed = {}
+        for st in steps:
+            if st.kind != "fix" or st.exc is not None or st.found is None or not st.fixable:
+                continue
+            items = listed.get(st.rule)
+            want = sorted(((l, s) for (l, s) in st.found if items is not None and ("all" in items or l in items)), key=lambda x: x[1] if isinstance(x[1], int) else -1)
+            got = sorted(((e["line"], e["start"]) for e in (st.edits or [])), key=lambda x: x[1] if isinstance(x[1], int) else -1)
+            out["c20_steps"] = out.get("c20_steps", 0) + 1
+            if got != want:
+                kind = "fixedUnlisted" if any(g not in want for g in got) else "listedNotFixed"
+                fails.append({"prop": "C20", "site": "rule.Rule._filter_out_fix_only_violations", "kind": kind, "detail": "%s: analysis found (line, index) %r, --fix_only lists %r, fixed %r" % (st.rule, st.found[:8], items, got[:8]), "input": dict(describe(job, style, dicts, text), fix_only=job["fix_only"]), "step": st.index})
+                break
     if "trace" in feats:
         # layer B: replay every violation of a modelled `_fix_violation` owner through Lean
         import bfix
@@ -326,6 +368,8 @@ def run_job_inner(job):
             for prop in ("c01", "c02", "c03", "c07"):
                 if r[prop] != "ok":
                     kind = r[prop].split(":")[0]
+                    if kind == "ownLineCommentRemoved":
+                        kind = ":".join(r[prop].split(":")[:2]).split(" ")[0]
                     if prop == "c07" and kind == "lines":
                         ch = set(r[prop].split("changed=[")[1].split("]")[0].replace(" ", "").split(",")) - {""}
                         rp = set(r[prop].split("reported=[")[1].split("]")[0].replace(" ", "").split(",")) - {""}
@@ -342,37 +386,60 @@ def run_job_inner(job):
     return out
 
 
+def core_seed(i, every=6):
+    """quick tier: five jobs out of six make the same random choices whatever VERIF_SEED is (the check one runs on
+    every change should say the same thing about the same tree), the sixth follows the seed; the thorough tier
+    follows the seed everywhere"""
+    return common.seed() if i % every == every - 1 else 0
+
+
 def make_jobs(tier, features=("trace",), limit=None):
     """the standard job list of a tier (deterministic in VERIF_SEED)"""
-    rng = common.rng("jobs")
+    import random
+
     files = gen_inputs.corpus_files()
     jobs = []
     feats = list(features)
     for p in files:
         jobs.append({"path": p, "variant": "orig", "config": "default", "features": feats})
     sample = list(files)
-    rng.shuffle(sample)
+    (random.Random("jobs-core") if tier == "quick" else common.rng("jobs")).shuffle(sample)
     seedv = common.seed()
+    sv = (lambda i: core_seed(i)) if tier == "quick" else (lambda i: seedv)
     if tier == "quick":
         n_var, n_cfg = 400, 250
     else:
         n_var, n_cfg = len(sample) * 3, len(sample) * 2
     for i in range(n_var):
         p = sample[i % len(sample)]
-        jobs.append({"path": p, "variant": gen_inputs.VARIANTS[(i // len(sample) + i) % len(gen_inputs.VARIANTS)], "vseed": seedv * 1000 + i, "config": "default", "features": feats})
+        jobs.append({"path": p, "variant": gen_inputs.VARIANTS[(i // len(sample) + i) % len(gen_inputs.VARIANTS)], "vseed": sv(i) * 1000 + i, "config": "default", "features": feats})
     cfgs = ["jcl", "upper", "all_enabled", "random", "optional_remove", "random_jcl", "random"]
     for i in range(n_cfg):
         p = sample[(i * 7 + 3) % len(sample)]
         c = cfgs[i % len(cfgs)]
-        j = {"path": p, "variant": ("orig", "messy", "glue")[i % 3], "vseed": seedv * 1000 + i, "config": c, "features": feats}
+        j = {"path": p, "variant": ("orig", "messy", "glue")[i % 3], "vseed": sv(i) * 1000 + i, "config": c, "features": feats}
         if c.startswith("random"):
-            j["cseed"] = seedv * 1000 + (i % 40)
+            j["cseed"] = sv(i) * 1000 + (i % 40)
             if i % 4 == 0:
                 j["fix_only_all"] = True
+        elif i % 7 in (0, 2):
+            j["fix_only_lines"] = True
         jobs.append(j)
+    # directed: every rule's own test input with every rule enabled (the default-disabled rules fire on nothing
+    # else), a third of them also flush left (what phases 1-3 see before phase 4 has indented anything)
+    for i, p in enumerate(directed_files(files)):
+        jobs.append({"path": p, "variant": "orig", "config": "all_enabled", "features": feats})
+        if i % 3 == 0:
+            jobs.append({"path": p, "variant": "flush", "vseed": 0, "config": "default" if i % 2 else "all_enabled", "features": feats})
     if limit:
         jobs = jobs[:limit]
     return jobs
+
+
+def directed_files(files):
+    import re
+
+    return [p for p in files if re.search(r"/rule_\d+_test_input[^/]*\.vhd$", p) and ".fixed" not in os.path.basename(p)]
 
 
 def aggregate(results):
@@ -394,6 +461,7 @@ def aggregate(results):
         agg["lines"] += r.get("lines", 0)
         agg["tois"] += r.get("tois", 0)
         agg["idem"] += r.get("idem", 0)
+        agg["c20_steps"] = agg.get("c20_steps", 0) + r.get("c20_steps", 0)
         agg["bfix_replayed"] += r.get("bfix_replayed", 0)
         agg["bfix_skipped_overlap"] += r.get("bfix_skipped_overlap", 0)
         agg["bfix_unmodelled"].update(r.get("bfix_unmodelled", {}))
